@@ -331,7 +331,8 @@ func execPair(t *testing.T, w *W) *hx.Outcome {
 		o.Discarded = true
 		return o
 	}
-	if strings.Contains(w.Src, "basics_fn") && (alone.Ctl != "" || alone.Throws != "" || !strings.Contains(alone.Out, "idx=")) {
+	if strings.Contains(w.Src, "basics_fn") && (alone.Ctl != "" || alone.Throws != "" || !strings.Contains(alone.Out, "idx=") ||
+		(strings.Contains(w.Src, "json2=") && !strings.Contains(alone.Out, "div="))) {
 		// the fixed probe program must run to its end on a clean VM, or it probes nothing
 		o.Violate("C20/harness-setup", "the basics probe does not run to completion on a fresh VM: "+alone.String())
 		return o
